@@ -71,6 +71,21 @@ chk("C20", "h_csp",
     "Held on every system generated (4e5 quick / 2e7 thorough). Both directions are checked (solvable <=> satisfiable) and every returned assignment is validated against all ranges, parities and constraints.",
     "the enumeration oracle in h_csp.cpp; domain product capped at 4e6 as in the property's quantifier",
     "DESIGN.md section 3 C20")
+chk("C15", "h_rev",
+    "runtime differential monitor: RevMoveGen output vs forward moves along seeded legal games; refchess judges every listed predecessor (plausibility, legality, replay to the same position and undo information); ASan slice",
+    "Held on every (P,m) pair and every un-move inspected (2.6e5 pairs / 7e6 un-moves quick; 1e7 pairs thorough); all special move classes are counted and must be non-empty.",
+    "refchess; domain = positions whose e.p. square is normalised after every move (RevMoveGen's documented domain, as in class Game)",
+    "DESIGN.md section 3 C15")
+chk("C16", "h_pg + texelutil (real program)",
+    "runtime monitors over reachable positions: (1) every output line of the real 'texelutil proofgame -f [-o]' and of the in-process filter must not say illegal, (2) every printed proof game is replayed by an independent SAN reader on refchess to exactly the goal, (3) distLowerBound on every prefix of every generated game vs the true remaining length; ASan/UBSan slices",
+    "Held on every generated game/position except for the two recorded findings F11/F12 (castling and e.p. capture are not modelled by the distance heuristic). The check fails hard if a filter stage (kernel, extended kernel CSP, last-move analysis, path search, iterated proof search) was never exercised.",
+    "refchess for game generation and proof replay; positions with >=26 men; iterated mode under a 120 s cap (unresolved = inconclusive)",
+    "DESIGN.md section 3 C16")
+chk("C17", "h_rules + h_pgn + texel(asan) + h_fuzz",
+    "runtime round-trip monitors with independent writer/model (move text, PGN trees) and sanitizer-guarded mutation fuzzing of every text entry point (FEN, move text, UCI move, PGN, numbers, live UCI command lines); libFuzzer in the thorough tier",
+    "Held on every generated case (3e6 quick; 7e7+ thorough). The PGN oracle's sensitivity is self-tested on each run (damaged expectations must all be noticed).",
+    "refchess; ASan/UBSan/_GLIBCXX_ASSERTIONS see executed paths only; resource options excluded from UCI garbage",
+    "DESIGN.md section 3 C17")
 
 
 def main():
@@ -108,6 +123,10 @@ def main():
             dict(name="h_tb", path="/verif/src/h_tb.cpp", serves_properties=["C12", "C13", "C04"], kind_free_text="in-process multi-threaded harness: TBGenerator/TranspositionTable + independent mini rules engine; also serves verified DTM dumps to the python oracles"),
             dict(name="h_bb", path="/verif/src/h_bb.cpp", serves_properties=["C19"], kind_free_text="in-process harness: BookBuild::Book via the declared test-friend class, independent graph model"),
             dict(name="h_csp", path="/verif/src/h_csp.cpp", serves_properties=["C20"], kind_free_text="in-process harness: CspSolver vs enumeration/z3"),
+            dict(name="h_rev", path="/verif/src/h_rev.cpp", serves_properties=["C15"], kind_free_text="in-process harness: RevMoveGen vs refchess"),
+            dict(name="h_pg", path="/verif/src/h_pg.cpp", serves_properties=["C16"], kind_free_text="in-process harness: ProofGame/ProofGameFilter via the declared test-friend class; independent SAN replay on refchess"),
+            dict(name="texelutil", path="/verif/build/<variant>/texelutil", serves_properties=["C16", "C09"], kind_free_text="the real utility program built from /repo in place"),
+            dict(name="h_pgn", path="/verif/src/h_pgn.cpp", serves_properties=["C17"], kind_free_text="in-process harness: PGN round trip with independent writer and tree model; garbage into all text entry points"),
             dict(name="h_rules", path="/verif/src/h_rules.cpp", serves_properties=["C01", "C02", "C17"], kind_free_text="in-process harness linking texellib + refchess oracle (rel and asan+ubsan builds)"),
         ],
         checks=checks,
